@@ -591,6 +591,52 @@ h_ab!(c03_ab_tn_1x2_2x2, true, false, 8);
 h_ab!(c03_ab_nt_1x2_2x2, false, true, 8);
 h_ab!(c03_ab_tt_1x2_2x2, true, true, 8);
 
+// matmul with a COLUMN-vector left operand (N x 1 times 1 x 2, an outer product) and a 2 x 2 times 2 x 1 product:
+// shapes on which a "vector buffer is already a row" shortcut or a swapped dimension shows; entries 0.0 / 1.0.
+macro_rules! h_matmul_shape {
+    ($name:ident, $ar:expr, $ac:expr, $bc:expr, $unw:expr) => {
+        #[kani::proof]
+        #[kani::unwind($unw)]
+        fn $name() {
+            const AR: usize = $ar;
+            const AC: usize = $ac;
+            const BC: usize = $bc;
+            let sa: [[bool; AC]; AR] = kani::any();
+            let sb: [[bool; BC]; AC] = kani::any();
+            let f = |b: bool| if b { 1.0f64 } else { 0.0f64 };
+            let mut a: Dm = DenseMatrix::zeros(AR, AC);
+            let mut b: Dm = DenseMatrix::zeros(AC, BC);
+            for r in 0..AR {
+                for c in 0..AC {
+                    a.set(r, c, f(sa[r][c]));
+                }
+            }
+            for r in 0..AC {
+                for c in 0..BC {
+                    b.set(r, c, f(sb[r][c]));
+                }
+            }
+            let p = a.matmul(&b);
+            assert!(p.shape() == (AR, BC), "matmul: the product of an m x k and a k x n matrix is m x n");
+            for r in 0..AR {
+                for c in 0..BC {
+                    let mut count = 0u8;
+                    for i in 0..AC {
+                        if sa[r][i] && sb[i][c] {
+                            count += 1;
+                        }
+                    }
+                    assert!(p.get(r, c) == count as f64, "matmul: cell (r, c) is the sum over i of A(r, i) * B(i, c)");
+                }
+            }
+            kani::cover!(p.get(AR - 1, BC - 1) == 1.0);
+        }
+    };
+}
+h_matmul_shape!(c03_matmul_2x1_1x2, 2, 1, 2, 8);
+h_matmul_shape!(c03_matmul_2x2_2x1, 2, 2, 1, 8);
+h_matmul_shape!(c03_matmul_3x1_1x1, 3, 1, 1, 8);
+
 // ---------------------------------------------------------------------------------------------- sum / max / min, paired fallback of the Verus unit dm_reduce
 macro_rules! h_reduce {
     ($name:ident, $r:expr, $c:expr, $unw:expr) => {
